@@ -35,10 +35,14 @@ def main():
             rows.append((d, prop, "PATCH DOES NOT APPLY", ""))
             sh("git checkout -- . && git clean -fdq", REPO)
             continue
+        ev = os.path.join(VERIF, "evidence", prop + ".json")
+        keep = open(ev, "rb").read() if os.path.exists(ev) else None
         try:
             rc, out = sh("./check %s --tier quick" % prop)
         finally:
             sh("git checkout -- . && git clean -fdq", REPO)
+            if keep is not None:
+                open(ev, "wb").write(keep)      # evidence stays the one of the last clean-tree run
         viol = [l for l in out.splitlines() if l.startswith("VIOLATION")]
         nofail = [l for l in viol if l.rstrip().endswith("no-failing-input-found")]
         if rc == 0 and not viol:
@@ -52,7 +56,7 @@ def main():
             rp = viol[0].split("replay=")[1].split()[0]
             try:
                 rj = json.load(open(os.path.join(VERIF, rp)))
-                first = (rj.get("why") or rj.get("kind") or "")[:200]
+                first = str(rj.get("why") or rj.get("kind") or "")[:200]
             except Exception:
                 pass
         meta["check_result"] = {"command": "./check %s --tier quick" % prop, "exit": rc, "violation_lines": len(viol),
@@ -61,10 +65,19 @@ def main():
         json.dump(meta, open(os.path.join(sd, "meta.json"), "w"), indent=1)
         rows.append((d, prop, verdict, first))
         print(d, prop, verdict, flush=True)
+    # the table is rebuilt from every seed's recorded result (a partial run keeps the other rows)
+    allrows = []
+    for d in sorted(os.listdir(os.path.join(VERIF, "seeded"))):
+        mp = os.path.join(VERIF, "seeded", d, "meta.json")
+        if os.path.exists(mp):
+            m = json.load(open(mp))
+            cr = m.get("check_result") or {}
+            if isinstance(cr, dict):
+                allrows.append((d, m.get("property", ""), cr.get("verdict", "not run"), str(cr.get("first_violation", "")), cr.get("repo_head", "")))
     with open(os.path.join(VERIF, "seeded", "RESULTS.md"), "w") as f:
-        f.write("# Seeded changes against the checks (quick tier)\n\n| seed | property | result | first violation |\n|---|---|---|---|\n")
-        for r in rows:
-            f.write("| %s | %s | %s | %s |\n" % (r[0], r[1], r[2], r[3].replace("|", "/").replace("\n", " ")))
+        f.write("# Seeded changes against the checks (quick tier)\n\n| seed | property | result | first violation | /repo HEAD |\n|---|---|---|---|---|\n")
+        for r in allrows:
+            f.write("| %s | %s | %s | %s | %s |\n" % (r[0], r[1], r[2], r[3].replace("|", "/").replace("\n", " "), r[4]))
     return 0
 
 
